@@ -273,7 +273,11 @@ func cmdCheck(args []string) {
 	}
 	tmp, _ := os.MkdirTemp("", "govc-"+prop+"-")
 	defer os.RemoveAll(tmp)
-	solver := newSolver(tmp, seed, ms, 14)
+	solver := newSolver(tmp, seed, ms, 16)
+	solver.lastResort = thorough
+	if thorough {
+		solver.maxCubes = 128
+	}
 
 	claimed := readList(filepath.Join(verifDir, "baseline", prop+".claimed"))
 	undecided := readList(filepath.Join(verifDir, "baseline", prop+".undecided"))
@@ -305,16 +309,7 @@ func cmdCheck(args []string) {
 				res = P.verifyFunc(j.fn, thorough)
 			}
 			<-gen
-			var obls []*Obl
-			for _, o := range res.Obls {
-				if oblInProp(o, prop, j.props) {
-					obls = append(obls, o)
-				}
-			}
-			var vs []*Verdict
-			if res.Ex != nil {
-				vs = solver.solveAll(res.Ex, obls)
-			}
+			vs := P.solveFunc(solver, res, thorough, func(o *Obl) bool { return oblInProp(o, prop, j.props) })
 			results[i] = &fres{j, res, vs}
 		}(i, j)
 	}
